@@ -282,6 +282,7 @@ def run_replace(ctx, structure, search, replace, spec, script, fraction=None, re
     kw.update(extra)
     ctx.event("op", "replace", len(structure), len(search), len(replace), kw.get("replace_fraction"), kw.get("replace_all"))
     ctx.rng.last_sample = None
+    ctx.rng.last_sample_idx, ctx.rng.last_sample_n = None, None
     try:
         res = mofun.replace_pattern_in_structure(structure, search, replace, **kw)
         run.result, run.reported = res
@@ -344,6 +345,14 @@ def run_replace(ctx, structure, search, replace, spec, script, fraction=None, re
                 run.found = (fixed, run.found[1], run.found[2])
         except Exception:
             pass
+    if run.found is not None and run.sampled is not None:
+        # the selection is WHICH members of the sampled population were drawn; it can be attributed to matches if the population had
+        # one member per match (whatever the members were: match numbers, index tuples, (tuple, positions) pairs ...)
+        if ctx.rng.last_sample_n == len(run.found[0]) and ctx.rng.last_sample_idx is not None:
+            run.sampled = list(ctx.rng.last_sample_idx)
+        elif not all(isinstance(x, (int, np.integer)) for x in run.sampled):
+            run.sampled = []
+            run.sample_observed = False
     if run.found is not None:
         M = len(run.found[0])
         run.selected = list(range(M)) if run.sampled is None else [int(i) for i in run.sampled]
